@@ -4,6 +4,7 @@
  * multiplication routes; oracle = OpenSSL BN / EC_POINT. */
 #include <gmssl/sm2_z256.h>
 #include <gmssl/sm2.h>
+#include <openssl/err.h>
 #include "vh.h"
 #include "sm2_ref.h"
 
@@ -156,6 +157,31 @@ static void blk_points(void) {
 	}
 	EC_POINT_free(e);
 }
+/* pairs of DIFFERENT points that agree in one affine coordinate. Same x = opposite points (in the grid above). Same y: for P = (x1, y) the other
+   roots of x^3 + ax + b - y^2 are x = (-x1 +- sqrt(-3 x1^2 - 4a)) / 2; a general addition formula that tests "same y" where it means "same x"
+   (or short-cuts on either) goes wrong exactly here. Every representation pair Z in {1, 7, p-5}; add, sub of the negative, affine second operand, aliased. */
+static void blk_coincident(void) {
+	if (!vh_block_begin("points-sharing-a-coordinate")) return;
+	const EC_GROUP *g = sr_group(); BN_CTX *c = sr_ctx(); const BIGNUM *p = sr_p(); BIGNUM *k = BN_new(), *x1 = BN_new(), *y = BN_new(), *t = BN_new(), *rt = BN_new(), *x2 = BN_new(), *inv2 = BN_new(), *z = BN_new(), *a = BN_new();
+	BN_set_word(inv2, 2); BN_mod_inverse(inv2, inv2, p, c); BN_copy(a, p); BN_sub_word(a, 3); EC_POINT *P = EC_POINT_new(g), *Q = EC_POINT_new(g), *e = EC_POINT_new(g), *nQ = EC_POINT_new(g); int pairs = 0;
+	static const char *KS[] = { "3945208F7B2144B13F36E38AC6D39F95889393692860B51A42FB81EF4DF7C5B8", "59276E27D506861A16680F3AD9C02DCCEF3CC1FA3CDBE4CE6D54B80DEAC1BC21" };
+	for (int ki = 1; ki <= 42; ki++) { if (ki <= 40) BN_set_word(k, (BN_ULONG)ki); else BN_hex2bn(&k, KS[ki - 41]); EC_POINT_mul(g, P, k, NULL, NULL, c); EC_POINT_get_affine_coordinates(g, P, x1, y, c);
+		/* disc = -3 x1^2 - 4a */ BN_mod_sqr(t, x1, p, c); BN_mul_word(t, 3); BN_mod(t, t, p, c); BN_mod_sub(t, p, t, p, c); BN_copy(rt, a); BN_mul_word(rt, 4); BN_mod(rt, rt, p, c); BN_mod_sub(t, t, rt, p, c);
+		if (BN_is_zero(t) || !BN_mod_sqrt(rt, t, p, c)) { ERR_clear_error(); continue; } /* no partner with this y */
+		for (int sgn = 0; sgn < 2; sgn++) { if (sgn) BN_mod_sub(rt, p, rt, p, c); BN_mod_sub(x2, rt, x1, p, c); BN_mod_mul(x2, x2, inv2, p, c); if (!BN_cmp(x2, x1)) continue; if (!EC_POINT_set_affine_coordinates(g, Q, x2, y, c)) { ERR_clear_error(); vh_harness_error("same-y partner is not on the curve"); } pairs++;
+			EC_POINT_copy(nQ, Q); EC_POINT_invert(g, nQ, c); EC_POINT_add(g, e, P, Q, c);
+			for (int zi = 0; zi < 3; zi++) for (int zj = 0; zj < 3; zj++) { if (!vh_next()) continue; SM2_Z256_POINT LP, LQ, LnQ, r; BIGNUM *zz[2] = { BN_new(), BN_new() }; int zs[2] = { zi, zj }; for (int q = 0; q < 2; q++) { BN_one(zz[q]); if (zs[q] == 1) BN_set_word(zz[q], 7); if (zs[q] == 2) { BN_copy(zz[q], p); BN_sub_word(zz[q], 5); } }
+				sr_point_to_jac_mont(P, zz[0], LP.X, LP.Y, LP.Z); sr_point_to_jac_mont(Q, zz[1], LQ.X, LQ.Y, LQ.Z); sr_point_to_jac_mont(nQ, zz[1], LnQ.X, LnQ.Y, LnQ.Z); BN_free(zz[0]); BN_free(zz[1]); char det[200]; snprintf(det, sizeof det, "\"k\":%d,\"partner\":%d,\"Z1\":%d,\"Z2\":%d", ki, sgn, zi, zj);
+				sm2_z256_point_add(&r, &LP, &LQ); vh_eval(vh_mix(ki * 1000 + sgn * 100 + zi * 10 + zj + 7000001)); if (!pt_eq(&r, e)) vh_viol("C13:point_add:different-points-with-the-same-y", "%s", det);
+				sm2_z256_point_add(&r, &LQ, &LP); vh_eval(vh_mix(ki * 1000 + sgn * 100 + zi * 10 + zj + 7100001)); if (!pt_eq(&r, e)) vh_viol("C13:point_add:different-points-with-the-same-y", "%s,\"swapped\":1", det);
+				sm2_z256_point_sub(&r, &LP, &LnQ); vh_eval(vh_mix(ki * 1000 + sgn * 100 + zi * 10 + zj + 7200001)); if (!pt_eq(&r, e)) vh_viol("C13:point_sub:different-points-with-opposite-y", "%s", det);
+				r = LP; sm2_z256_point_add(&r, &r, &LQ); vh_eval(vh_mix(ki * 1000 + sgn * 100 + zi * 10 + zj + 7300001)); if (!pt_eq(&r, e)) vh_viol("C13:point_add:aliased:different-points-with-the-same-y", "%s", det);
+				if (zj == 0) { SM2_Z256_AFFINE_POINT af; memcpy(af.x, LQ.X, 32); memcpy(af.y, LQ.Y, 32); sm2_z256_point_add_affine(&r, &LP, &af); vh_eval(vh_mix(ki * 1000 + sgn * 100 + zi * 10 + 7400001)); if (!pt_eq(&r, e)) vh_viol("C13:point_add_affine:different-points-with-the-same-y", "%s", det);
+					memcpy(af.x, LnQ.X, 32); memcpy(af.y, LnQ.Y, 32); sm2_z256_point_sub_affine(&r, &LP, &af); vh_eval(vh_mix(ki * 1000 + sgn * 100 + zi * 10 + 7500001)); if (!pt_eq(&r, e)) vh_viol("C13:point_sub_affine:different-points-with-opposite-y", "%s", det); } } } }
+	if (pairs < 20) vh_harness_error("fewer than 20 same-y pairs constructed");
+	vh_sample("{\"block\":\"points-sharing-a-coordinate\",\"same_y_pairs\":%d,\"representations\":9}", pairs);
+	BN_free(k); BN_free(x1); BN_free(y); BN_free(t); BN_free(rt); BN_free(x2); BN_free(inv2); BN_free(z); BN_free(a); EC_POINT_free(P); EC_POINT_free(Q); EC_POINT_free(e); EC_POINT_free(nQ);
+}
 /* scalars: one non-zero Booth window v*2^(w*i); adjacent-window pairs; boundary scalars; on every route */
 static void scalar_case(const BIGNUM *k, const char *what) {
 	const EC_GROUP *g = sr_group(); BN_CTX *c = sr_ctx(); uint64_t kl[4]; sr_bn_to_limbs(kl, k); EC_POINT *e = EC_POINT_new(g); SM2_Z256_POINT r; char key[128];
@@ -183,7 +209,7 @@ static void blk_scalars(void) {
 	for (size_t i = 0; i < NOPS - 18; i += (vh_thorough ? 1 : 7)) { if (!vh_next()) continue; scalar_case(OPB[i], "limb-alphabet"); }
 	BN_free(k); BN_free(t);
 }
-static void body(void) { blk_unary(); blk_points(); blk_scalars(); blk_binary(); }
+static void body(void) { blk_unary(); blk_points(); blk_coincident(); blk_scalars(); blk_binary(); }
 int main(int argc, char **argv) {
 	vh_init(argc, argv); if (!freopen("/dev/null", "w", stderr)) {} sr_init(); build_ops(); build_points();
 	T1 = BN_new(); T2 = BN_new(); T3 = BN_new(); RP = BN_new(); RN = BN_new(); RPI = BN_new(); RNI = BN_new(); M256 = BN_new(); BN_set_bit(M256, 256);
